@@ -5,7 +5,7 @@ import ast
 
 import z3
 
-from .pyvals import (LCAT, NONE, Exc, IntSeq, NoneVal, PyCache, PyCallable, PyConst, PyGen, PyKey, PyList, PyLit, PyMap, PyObj, PyOpt, PyStrDict, PyStrSet,
+from .pyvals import (LCAT, NONE, Exc, IntSeq, NoneVal, PyCache, PyComp, PyCallable, PyConst, PyGen, PyKey, PyList, PyLit, PyMap, PyObj, PyOpt, PyStrDict, PyStrSet,
                      PyTuple, StrSeq, Tok, TokSeq, Val, ValSeq, fresh, is_bool, is_int, is_seq, is_str, is_tok, is_val, is_z3,
                      tok_fields)
 from .pyvc import (Tr, Unsupported, dedent, eq, is_keyword, is_soft_keyword, join_lines, lex_lt, lift, str_isspace, str_lower,
@@ -205,6 +205,15 @@ class ExprMixin:
         return [(st, PyDictLit(d))]
 
     def e_JoinedStr(self, e, st):
+        # an f-string without conversions / specs over concrete strings is computed (names such as f"__xonsh__.{method}")
+        if all(isinstance(p, ast.Constant) or (isinstance(p, ast.FormattedValue) and p.conversion == -1 and p.format_spec is None) for p in e.values):
+            try:
+                vals = [z3.StringVal(p.value) if isinstance(p, ast.Constant) else lift(self.eval1(p.value, st)) for p in e.values]
+                vals = [z3.simplify(v) if is_z3(v) else v for v in vals]
+            except Unsupported:
+                vals = None
+            if vals is not None and all(is_z3(v) and is_str(v) and z3.is_string_value(v) for v in vals):
+                return [(st, z3.StringVal("".join(v.as_string() for v in vals)))]
         # evaluate embedded expressions for their effects/safety; the text itself is an opaque non-empty-if-literal string
         res = [(st, [])]
         parts_lit = any(isinstance(p, ast.Constant) and p.value for p in e.values)
@@ -532,6 +541,9 @@ class ExprMixin:
             if is_str(v):
                 return z3.SubString(v, j, 1)
             return v[j]
+        if isinstance(v, PyComp):
+            self.safety(s, z3.And(i >= -v.length, i < v.length), f"subscript `{ast.unparse(node)[:60]}` in range (IndexError)", node)
+            return v.at(self.norm_index(v.length, i) if self.feasible(s, i < 0) else i)
         if isinstance(v, PyMap):
             self.safety(s, z3.Select(v.present, i), f"key present in `{ast.unparse(node)[:60]}` (KeyError)", node)
             return z3.Select(v.value, i)
@@ -584,6 +596,8 @@ class ExprMixin:
         s2.assume(z3.And(j >= 0, j < z3.Length(it)))
         self.assign_target(g.target, it[j], s2)
         elt = self.eval1(e.elt, s2)      # safety VCs emitted with the arbitrary j in the path condition
+        if isinstance(elt, PyObj):
+            return [(st, PyComp(z3.Length(it), j, elt))]
         elt = lift(elt)
         if not is_z3(elt):
             raise Unsupported("comprehension element")
